@@ -140,12 +140,11 @@ Definition sort_by (le : Z -> Z -> bool) (l : poly) : poly := fold_right (insert
 Definition sort_asc := sort_by Z.leb.
 Definition sort_desc := sort_by Z.geb.
 
-(* __hash__ = hash((frozenset(items), zero)): a function of the SET of items, i.e. of
-   the sorted term list; the hash function itself is abstract. *)
-Section Hash.
-  Variable H : list (Z * Qc) -> Z.
-  Definition phash (p : poly) : Z := H (sort_asc p).
-End Hash.
+(* __hash__ = hash((frozenset(iteritems(_data)), zero)): a function of the SET of stored
+   (power, coefficient) items, i.e. any function of the term list that is invariant under
+   permutation.  The hash function itself stays abstract (see Spec.perm_invariant); the
+   model only says on which data it depends. *)
+Definition hash_items (p : poly) : list (Z * Qc) := p.
 
 (* ------------------------------------------------------------------ __call__ *)
 Inductive hmode := HTrue | HFalse | HAuto.
@@ -236,6 +235,11 @@ Definition lagrange_func (pts : list (Qc * Qc)) (v : Qc) : Qc :=
   match lagrange_np pts (Num v) with Num r => r | Pol _ => 0 end.
 Definition lagrange_poly (pts : list (Qc * Qc)) : poly :=       (* Poly(lagrange.func(pairs)(x)) *)
   match lagrange_np pts (Pol px) with Num r => pconst r | Pol p => pcopy p end.
+(* "xv, yv = xzip(*pairs)" cannot unpack an empty point list: ValueError *)
+Definition lagrange_func_r (pts : list (Qc * Qc)) (v : Qc) : res Qc :=
+  match pts with [] => Raise "ValueError" | _ => Ok (lagrange_func pts v) end.
+Definition lagrange_poly_r (pts : list (Qc * Qc)) : res poly :=
+  match pts with [] => Raise "ValueError" | _ => Ok (lagrange_poly pts) end.
 
 (* ------------------------------------------------------------------ operator dispatch *)
 (* Expression trees evaluated the way Python dispatches the operators (a number operand
